@@ -1,13 +1,650 @@
-(* Lemmas about Model/CborPA.v (C13). *)
+(* Lemmas about Model/CborPA.v (C13): the panic/alloc/depth-aware model of the ABI CBOR decoder.
+
+   Structure: (1) checked-step lemmas, (2) the non-recursive scalar part, (3) specifications of the
+   three step functions dec_step / arr_step / map_step relative to specifications of their
+   continuations (post = facts for EVERY configuration, gpost = extra facts for a guarded one),
+   (4) the fuel-indexed fixpoint, (5) theorems about dec_pa, (6) refutation witnesses for the
+   unguarded configuration (= the decoder as it is in /repo). *)
 From Coq Require Import List NArith ZArith Lia Bool.
 From Echo Require Import Base.Bytes Model.CborPA.
 Import ListNotations.
 Open Scope N_scope.
 
+Lemma lenN_nil {A} : lenN (@nil A) = 0. Proof. reflexivity. Qed.
+
+Lemma get_some b i : i < lenN b -> exists x, get b i = Some x.
+Proof.
+  unfold get, lenN. intros H.
+  destruct (nth_error b (N.to_nat i)) eqn:E; eauto.
+  apply nth_error_None in E. lia.
+Qed.
+
+Lemma need_spec b i n : i <= lenN b -> need b i n = true <-> i + n <= lenN b.
+Proof. unfold need. intros H. rewrite N.leb_le. lia. Qed.
+
+Lemma uadd_some c a b : a + b <= usize_max c -> uadd c a b = Some (a + b).
+Proof. unfold uadd. intros H. apply N.leb_le in H. rewrite H. reflexivity. Qed.
+
+Lemma slice_val b a e : a <= e -> e <= lenN b ->
+  exists l, slice b a e = Val l /\ lenN l = e - a.
+Proof.
+  intros H1 H2. unfold slice.
+  assert (E1 : (e <? a) = false) by (apply N.ltb_ge; lia). rewrite E1.
+  assert (E2 : (lenN b <? e) = false) by (apply N.ltb_ge; lia). rewrite E2.
+  eexists; split; [reflexivity|].
+  unfold lenN in *. rewrite firstn_length, skipn_length. lia.
+Qed.
+
+Section Steps.
+Variable c : cfg.
+Variable b : bytes.
+Local Notation L := (lenN b).
+Hypothesis Hfit : L <= usize_max c.
+
+Lemma read_uint_loop_spec k : forall i v, i + N.of_nat k <= L ->
+  exists v', read_uint_loop c b k i v = Val (v', i + N.of_nat k).
+Proof.
+  induction k as [|k IH]; intros i v H; cbn [read_uint_loop].
+  - exists v. f_equal. f_equal. lia.
+  - destruct (get_some b i) as [x Hx]; [lia|]. rewrite Hx.
+    rewrite uadd_some by lia.
+    destruct (IH (i + 1) (N.lor ((v * 256) mod two64) x)) as [v' Hv]; [lia|].
+    exists v'. rewrite Hv. f_equal. f_equal. lia.
+Qed.
+
+(* read_uint: Val advances by k and stays in range; otherwise Incomplete *)
+Lemma read_uint_spec i k : i <= L ->
+  (exists v, read_uint c b i k = Val (v, i + N.of_nat k) /\ i + N.of_nat k <= L) \/
+  read_uint c b i k = Err EIncomplete.
+Proof.
+  intros Hi. unfold read_uint. destruct (need b i (N.of_nat k)) eqn:E; [|right; reflexivity].
+  apply need_spec in E; [|exact Hi]. left.
+  destruct (read_uint_loop_spec k i 0) as [v Hv]; [exact E|]. exists v. split; [exact Hv|exact E].
+Qed.
+
+Inductive len_out (i : N) : res (N * N) -> Prop :=
+| lo_val n i' : i <= i' -> i' <= L -> len_out i (Val (n, i'))
+| lo_err e : len_out i (Err e).
+
+Lemma read_len_spec i info : i <= L -> len_out i (read_len c b i info).
+Proof.
+  intros Hi. unfold read_len.
+  destruct (info <=? 23); [constructor; lia|].
+  destruct (28 <=? info); [destruct (info =? 31); constructor|].
+  match goal with |- context [read_uint c b i ?k] => destruct (read_uint_spec i k Hi) as [[v [E Hle]]|E]; rewrite E end.
+  - match goal with |- context [v <=? ?l] => destruct (v <=? l) end; constructor; lia.
+  - constructor.
+Qed.
+
+Lemma read_fbits_spec i n : i <= L -> len_out i (read_fbits c b i n).
+Proof.
+  intros Hi. unfold read_fbits. destruct (need b i n) eqn:E; [|constructor].
+  apply need_spec in E; [|exact Hi]. rewrite uadd_some by lia.
+  destruct (slice_val b i (i + n)) as [l [Hs _]]; [lia|exact E|]. rewrite Hs. constructor; lia.
+Qed.
+End Steps.
+
+Section Scalar.
+Variable c : cfg.
+Variable b : bytes.
+Local Notation L := (lenN b).
+Hypothesis Hfit : L <= usize_max c.
+
+Definition sstep (kl : N) (s s' : st) : Prop :=
+  idx s <= idx s' /\ idx s' <= L /\ bud s' = bud s /\ dmax s' = dmax s /\
+  cur s <= cur s' /\ cur s' + idx s <= cur s + idx s' /\
+  peak s <= peak s' /\ peak s' <= N.max (peak s) (cur s' + kl).
+
+Definition benign {A} (o : res A) : Prop :=
+  match o with Panic _ | Fuel => False | _ => True end.
+
+Lemma benign_cast_err {A B} (o : res A) : benign o -> (forall a, o <> Val a) -> benign (@cast A B o).
+Proof. destruct o; cbn; auto. intros _ H. exact (H a eq_refl). Qed.
+
+Ltac len_cases H :=
+  inversion H as [n i' Hle1 Hle2 Heq | e Heq]; subst; clear H.
+
+Lemma sstep_setidx kl s i : idx s <= i -> i <= L -> sstep kl s (set_idx s i).
+Proof. intros. unfold sstep, set_idx; cbn. lia. Qed.
+
+Lemma dec_scalar_spec major info kl s o s' :
+  idx s <= L -> dec_scalar c b major info kl s = (o, s') -> sstep kl s s' /\ benign o.
+Proof.
+  intros Hi. unfold dec_scalar.
+  assert (Hrefl : sstep kl s s) by (unfold sstep; lia).
+  destruct (major <=? 1).
+  { pose proof (read_len_spec c b Hfit (idx s) info Hi) as H.
+    destruct (read_len c b (idx s) info) as [[n i]| | |] eqn:E; inversion H; subst.
+    - cbv zeta. destruct (major =? 0); [|destruct (n <? two64 / 2)]; intros X; inversion X; subst.
+      all: (split; [apply sstep_setidx; lia|exact I]).
+    - intros X; inversion X; subst. split; [exact Hrefl|exact I]. }
+  destruct (major <=? 3).
+  { pose proof (read_len_spec c b Hfit (idx s) info Hi) as H.
+    destruct (read_len c b (idx s) info) as [[n i]| | |] eqn:E; inversion H; subst.
+    2:{ intros X; inversion X; subst. split; [exact Hrefl|exact I]. }
+    cbv zeta. cbn [idx set_idx].
+    destruct (need b i (as_usize c n)) eqn:En.
+    2:{ intros X; inversion X; subst. split; [apply sstep_setidx; lia|exact I]. }
+    apply need_spec in En; [|assumption]. 
+    rewrite uadd_some by lia.
+    destruct (slice_val b i (i + as_usize c n)) as [l [Hs Hl]]; [lia|exact En|]. rewrite Hs.
+    assert (Ha : sstep kl s (alloc (as_usize c n) kl (set_idx (set_idx s i) (i + as_usize c n)))).
+    { unfold sstep, alloc, set_idx; cbn. lia. }
+    destruct (major =? 2); [|destruct (utf8_ok l)]; intros X; inversion X; subst;
+      (split; [unfold sstep, alloc, set_idx in *; cbn [idx bud cur peak dmax] in *; lia|exact I]). }
+  destruct (major =? 6); [intros X; inversion X; subst; split; [exact Hrefl|exact I]|].
+  destruct (major =? 7); [|intros X; inversion X; subst; split; [exact Hrefl|exact I]].
+  repeat match goal with
+  | |- (if ?x =? ?y then _ else _) = _ -> _ => destruct (x =? y)
+  end; try (intros X; inversion X; subst; split; [exact Hrefl|exact I]);
+  (match goal with |- context [read_fbits c b (idx s) ?k] =>
+         pose proof (read_fbits_spec c b Hfit (idx s) k Hi) as H;
+         destruct (read_fbits c b (idx s) k) as [[n i]| | |] eqn:E; inversion H; subst end);
+  try (intros X; inversion X; subst; split; [exact Hrefl|exact I]);
+  cbv zeta;
+  repeat match goal with
+       | |- (if ?x then _ else _) = _ -> _ => destruct x
+       end; intros X; inversion X; subst; (split; [apply sstep_setidx; lia|exact I]).
+Qed.
+End Scalar.
+
+Section Main.
+Variable c : cfg.
+Variable b : bytes.
+Local Notation L := (lenN b).
+Hypothesis Hfit : L <= usize_max c.
+
+Record gd (m : N) : Prop := mkgd {
+  gd_guard : guard c = true;
+  gd_depth : depth_limit c = Some m;
+  gd_small : size_entry * L <= isize_max c }.
+
+Definition mono (s s' : st) : Prop :=
+  idx s <= idx s' /\ idx s' <= L /\ bud s' <= bud s /\ cur s <= cur s' /\ peak s <= peak s' /\ dmax s <= dmax s'.
+Definition vcost (s s' : st) : Prop := cur s' + 64 * bud s' + idx s <= cur s + 64 * bud s + idx s'.
+Definition pcost (k : N) (s s' : st) : Prop :=
+  peak s' <= N.max (peak s) (cur s + k + 64 * (bud s - bud s') + 2 * (idx s' - idx s)).
+Definition dcost (m : N) (s s' : st) : Prop := dmax s' <= N.max (dmax s) (m + 1).
+
+Definition post (strict : bool) (fuel_ok : Prop) (s : st) (r : res cval * st) : Prop :=
+  mono s (snd r) /\
+  (strict = true -> forall v, fst r = Val v -> idx s < idx (snd r)) /\
+  (forall p, fst r = Panic p -> p = PCapacity) /\
+  (fuel_ok -> fst r <> Fuel).
+
+Definition gpost (m k : N) (s : st) (r : res cval * st) : Prop :=
+  (forall p, fst r <> Panic p) /\ (forall v, fst r = Val v -> vcost s (snd r)) /\
+  pcost k s (snd r) /\ dcost m s (snd r).
+
+Definition llen (last : option bytes) : N := match last with Some p => lenN p | None => 0 end.
+
+Definition dec_ok (dk : dec_k) (F : N) : Prop := forall d kl s, idx s <= L ->
+  post true (2 * (L - idx s) + 1 <= F) s (dk d kl s) /\
+  (forall m, gd m -> bud s <= L -> d <= m + 1 -> gpost m kl s (dk d kl s)).
+Definition arr_ok (ak : arr_k) (F : N) : Prop := forall d kl n s acc, idx s <= L ->
+  post false (2 * (L - idx s) + 2 <= F) s (ak d kl n s acc) /\
+  (forall m, gd m -> bud s <= L -> d <= m -> gpost m kl s (ak d kl n s acc)).
+Definition map_ok (mk : map_k) (F : N) : Prop := forall d kl n s acc last, idx s <= L ->
+  post false (2 * (L - idx s) + 2 <= F) s (mk d kl n s acc last) /\
+  (forall m, gd m -> bud s <= L -> d <= m -> gpost m (kl + llen last) s (mk d kl n s acc last)).
+
+Ltac fields := unfold mono, vcost, pcost, dcost, alloc, touch, set_idx, enter, size_value, size_entry in *;
+               cbn [idx bud cur peak dmax fst snd] in *.
+
+Lemma head_spec s : idx s <= L ->
+  (exists b0, head c b s = (Val b0, set_idx s (idx s + 1)) /\ idx s + 1 <= L) \/ head c b s = (Err EIncomplete, s).
+Proof.
+  intros Hi. unfold head. destruct (need b (idx s) 1) eqn:E; [|right; reflexivity].
+  apply need_spec in E; [|exact Hi]. left.
+  destruct (get_some b (idx s)) as [x Hx]; [lia|]. rewrite Hx. rewrite uadd_some by lia.
+  exists x. split; [reflexivity|exact E].
+Qed.
+
+Lemma post_leaf strict (P : Prop) s o s' :
+  mono s s' -> (forall v, o = Val v -> strict = true -> idx s < idx s') -> (forall p, o <> Panic p) -> o <> Fuel ->
+  post strict P s (o, s').
+Proof.
+  intros Hm Hv Hp Hf. unfold post; cbn [fst snd]. repeat split; try apply Hm.
+  - intros St v E. exact (Hv v E St).
+  - intros p E. exfalso. exact (Hp p E).
+  - intros _. exact Hf.
+Qed.
+
+
+Lemma post_chain strict (P Q : Prop) s s1 r :
+  mono s s1 -> (strict = true -> idx s < idx s1) -> post false Q s1 r -> (P -> Q) -> post strict P s r.
+Proof.
+  intros Hm Hs [Hm1 [_ [Hp Hf]]] HPQ. unfold post. repeat split; try (fields; lia).
+  - intros St v E. specialize (Hs St). fields; lia.
+  - exact Hp.
+  - intros HP. apply Hf. apply HPQ. exact HP.
+Qed.
+
+Lemma gpost_chain m k s s1 r :
+  mono s s1 -> vcost s s1 -> pcost k s s1 -> dcost m s s1 -> mono s1 (snd r) -> gpost m k s1 r -> gpost m k s r.
+Proof.
+  intros Hm Hv Hp Hd Hm1 [G1 [G2 [G3 G4]]]. unfold gpost. repeat split.
+  - exact G1.
+  - intros v E. specialize (G2 v E). fields; lia.
+  - fields; lia.
+  - fields; lia.
+Qed.
+
+Lemma depth_ok m d : depth_limit c = Some m -> depth_exceeded c d = false -> d <= m.
+Proof. unfold depth_exceeded. intros ->. intros H. apply N.ltb_ge in H. exact H. Qed.
+
+Lemma reserve_spec n s s' : reserve c n s = Some s' ->
+  idx s' = idx s /\ cur s' = cur s /\ peak s' = peak s /\ dmax s' = dmax s /\ bud s' <= bud s /\
+  (guard c = true -> n <= bud s /\ bud s' = bud s - n).
+Proof.
+  unfold reserve. destruct (guard c).
+  - destruct (bud s <? n) eqn:E; [discriminate|]. apply N.ltb_ge in E. intros X; inversion X; subst; cbn. repeat split; auto; lia.
+  - intros X; inversion X; subst. repeat split; auto; try lia; try discriminate.
+Qed.
+
+Lemma with_cap_spec n sz kl s : 
+  (with_cap c n sz kl s = None /\ isize_max c < n * sz) \/ with_cap c n sz kl s = Some (alloc (n * sz) kl s).
+Proof.
+  unfold with_cap. destruct (isize_max c <? n * sz) eqn:E; [left|right]; auto. split; auto. apply N.ltb_lt. exact E.
+Qed.
+
+(* the container header part shared by arrays (sz = 32) and maps (sz = 64) *)
+Lemma container_ok (P : Prop) sz d kl s0 s1 n (K : st -> res cval * st) (F : N) k' :
+  (sz = 32 \/ sz = 64) ->
+  idx s0 <= idx s1 -> idx s1 <= L -> bud s1 = bud s0 -> cur s1 = cur s0 -> peak s1 = peak s0 -> dmax s1 = dmax s0 ->
+  (forall s, idx s <= L -> post false (2 * (L - idx s) + 2 <= F) s (K s) /\
+      (forall m, gd m -> bud s <= L -> d <= m -> gpost m k' s (K s))) ->
+  k' = kl ->
+  let r := match reserve c n s1 with
+           | None => (Err EIncomplete, s1)
+           | Some s => match with_cap c n sz kl s with None => (Panic PCapacity, s) | Some s => K s end
+           end in
+  post false (2 * (L - idx s0) + 2 <= F) s0 r /\
+  (forall m, gd m -> bud s0 <= L -> d <= m -> gpost m kl s0 r).
+Proof.
+  intros Hsz Hlt Hle Hb Hc Hp Hd HK -> r. subst r.
+  destruct (reserve c n s1) as [s2|] eqn:Er.
+  2:{ split.
+      - apply post_leaf; try discriminate. fields; lia.
+      - intros m G Hbud Hdm. unfold gpost; cbn [fst snd]. repeat split; try discriminate; fields; lia. }
+  apply reserve_spec in Er. destruct Er as [R1 [R2 [R3 [R4 [R5 R6]]]]].
+  destruct (with_cap_spec n sz kl s2) as [[Ew Hbig]|Ew]; rewrite Ew.
+  { split.
+    - unfold post; cbn [fst snd]. repeat split; try discriminate; try (fields; lia).
+      intros p E; inversion E; reflexivity.
+    - intros m G Hbud Hdm. exfalso. destruct G as [Gg Gd Gs]. destruct (R6 Gg) as [R7 R8].
+      unfold size_entry in Gs. destruct Hsz; subst sz; lia. }
+  set (s3 := alloc (n * sz) kl s2).
+  assert (H3 : idx s3 = idx s1 /\ bud s3 = bud s2 /\ cur s3 = cur s2 + n * sz /\
+               peak s3 = N.max (peak s2) (cur s2 + n * sz + kl) /\ dmax s3 = dmax s2) by (unfold s3, alloc; cbn; auto).
+  destruct H3 as [A1 [A2 [A3 [A4 A5]]]].
+  destruct (HK s3) as [HKp HKg]; [lia|].
+  assert (Hm03 : mono s0 s3) by (fields; lia).
+  split.
+  - eapply post_chain; [exact Hm03| discriminate | exact HKp | lia].
+  - intros m G Hbud Hdm. destruct (G) as [Gg Gd Gs]. destruct (R6 Gg) as [R7 R8].
+    eapply gpost_chain; [exact Hm03| | | | apply HKp | apply HKg; auto; lia].
+    + fields. destruct Hsz; subst sz; lia.
+    + fields. destruct Hsz; subst sz; lia.
+    + fields. lia.
+Qed.
+
+
+Lemma dec_step_ok ak mk F : arr_ok ak F -> map_ok mk F -> dec_ok (dec_step c b ak mk) (F + 1).
+Proof.
+  intros Ha Hm d kl s Hi. unfold dec_step.
+  set (s0 := enter d s).
+  assert (H0 : idx s0 = idx s /\ bud s0 = bud s /\ cur s0 = cur s /\ peak s0 = peak s /\ dmax s0 = N.max (dmax s) d)
+    by (unfold s0, enter; cbn; auto).
+  destruct H0 as [I0 [B0 [C0 [P0 D0]]]].
+  assert (Hm0 : mono s s0) by (fields; lia).
+  destruct (depth_exceeded c d) eqn:Ed.
+  { split.
+    - apply post_leaf; try discriminate. exact Hm0.
+    - intros m G Hb Hd. unfold gpost; cbn [fst snd]. repeat split; try discriminate; fields; lia. }
+  destruct (head_spec s0) as [[b0 [Eh Hle]]|Eh]; [lia| |]; rewrite Eh.
+  2:{ cbn [cast]. split.
+      - apply post_leaf; try discriminate. exact Hm0.
+      - intros m G Hb Hd. unfold gpost; cbn [fst snd]. repeat split; try discriminate; fields; lia. }
+  set (s1 := set_idx s0 (idx s0 + 1)).
+  assert (H1 : idx s1 = idx s + 1 /\ bud s1 = bud s /\ cur s1 = cur s /\ peak s1 = peak s /\ dmax s1 = N.max (dmax s) d)
+    by (unfold s1, set_idx; cbn; repeat split; lia).
+  destruct H1 as [I1 [B1 [C1 [P1 D1]]]].
+  assert (Hm1 : mono s s1) by (fields; lia).
+  cbv zeta.
+  (* what holds for any leaf reached from s1 without further allocation beyond sstep *)
+  assert (Leaf : forall o s', sstep b kl s1 s' -> benign o ->
+            post true (2 * (L - idx s) + 1 <= F + 1) s (o, s') /\
+            (forall m, gd m -> bud s <= L -> d <= m + 1 -> gpost m kl s (o, s'))).
+  { intros o s' St Bn. unfold sstep in St. split.
+    - apply post_leaf.
+      + fields; lia.
+      + intros; fields; lia.
+      + intros p E; subst o; exact Bn.
+      + intros E; subst o; exact Bn.
+    - intros m G Hb Hd. unfold gpost; cbn [fst snd]. repeat split.
+      + intros p E; subst o; exact Bn.
+      + intros v E. fields; lia.
+      + fields; lia.
+      + fields; lia. }
+  assert (Refl1 : sstep b kl s1 s1) by (unfold sstep; lia).
+  destruct (b0 / 32 =? 4).
+  { pose proof (read_len_spec c b Hfit (idx s1) (b0 mod 32)) as Hl.
+    destruct (read_len c b (idx s1) (b0 mod 32)) as [[n i]| | |] eqn:El;
+      (assert (Hl' := Hl ltac:(lia)); inversion Hl'; subst).
+    2:{ apply Leaf; [exact Refl1|exact I]. }
+    set (s2 := set_idx s1 i).
+    assert (Hs2 : idx s2 = i /\ bud s2 = bud s /\ cur s2 = cur s /\ peak s2 = peak s /\ dmax s2 = N.max (dmax s) d)
+      by (unfold s2, set_idx; cbn; repeat split; lia).
+    destruct Hs2 as [I2 [B2 [C2 [P2 D2]]]].
+    pose proof (container_ok True 32 d kl s1 s2 (as_usize c n) (fun s => ak d kl (as_usize c n) s []) F kl) as CO.
+    cbv zeta in CO.
+    destruct CO as [COp COg]; try lia; [intros Hx; apply Ha; exact Hx|].
+    split.
+    - eapply post_chain; [exact Hm1|intros _; lia|exact COp|lia].
+    - intros m G Hb Hd. pose proof (depth_ok m d (gd_depth m G) Ed) as Hdm.
+      eapply gpost_chain; [exact Hm1| | | | apply COp | apply COg; auto; lia]; fields; lia. }
+  destruct (b0 / 32 =? 5).
+  { pose proof (read_len_spec c b Hfit (idx s1) (b0 mod 32)) as Hl.
+    destruct (read_len c b (idx s1) (b0 mod 32)) as [[n i]| | |] eqn:El;
+      (assert (Hl' := Hl ltac:(lia)); inversion Hl'; subst).
+    2:{ apply Leaf; [exact Refl1|exact I]. }
+    set (s2 := set_idx s1 i).
+    assert (Hs2 : idx s2 = i /\ bud s2 = bud s /\ cur s2 = cur s /\ peak s2 = peak s /\ dmax s2 = N.max (dmax s) d)
+      by (unfold s2, set_idx; cbn; repeat split; lia).
+    destruct Hs2 as [I2 [B2 [C2 [P2 D2]]]].
+    pose proof (container_ok True 64 d kl s1 s2 (as_usize c n) (fun s => mk d kl (as_usize c n) s [] None) F (kl + llen None)) as CO.
+    cbv zeta in CO.
+    destruct CO as [COp COg]; try lia; [intros Hx; apply Hm; exact Hx|cbn [llen]; lia|].
+    split.
+    - eapply post_chain; [exact Hm1|intros _; lia|exact COp|lia].
+    - intros m G Hb Hd. pose proof (depth_ok m d (gd_depth m G) Ed) as Hdm.
+      eapply gpost_chain; [exact Hm1| | | | apply COp | apply COg; auto; lia]; fields; lia. }
+  destruct (dec_scalar c b (b0 / 32) (b0 mod 32) kl s1) as [o s'] eqn:Es.
+  apply (dec_scalar_spec c b Hfit) in Es; [|lia]. destruct Es as [St Bn]. apply Leaf; assumption.
+Qed.
+
+
+Lemma cast_id {A} (o : res A) : (forall v, o <> Val v) -> @cast A A o = o.
+Proof. destruct o; cbn; auto. intros H. exfalso. exact (H a eq_refl). Qed.
+
+Lemma post_weaken strict strict' (P Q : Prop) s r :
+  post strict Q s r -> (P -> Q) -> (strict' = true -> strict = true) -> post strict' P s r.
+Proof.
+  intros [A1 [A2 [A3 A4]]] HPQ Hs. unfold post. split; [exact A1|]. split; [|split].
+  - intros St. apply A2. apply Hs. exact St.
+  - exact A3.
+  - intros HP. apply A4. apply HPQ. exact HP.
+Qed.
+
+Lemma gpost_nonval m k s (o : res cval) s1 :
+  (forall v, o <> Val v) -> gpost m k s (o, s1) -> gpost m k s (o, s1).
+Proof. auto. Qed.
+
+Lemma arr_step_ok dk ak F : dec_ok dk F -> arr_ok ak F -> arr_ok (arr_step dk ak) (F + 1).
+Proof.
+  intros Hd Ha d kl n s acc Hi. unfold arr_step.
+  destruct (n =? 0).
+  { split.
+    - apply post_leaf; try discriminate. fields; lia.
+    - intros m G Hb Hdm. unfold gpost; cbn [fst snd]. repeat split; try discriminate; fields; lia. }
+  destruct (Hd (d + 1) kl s Hi) as [Dp Dg].
+  destruct (dk (d + 1) kl s) as [o s1] eqn:E.
+  assert (Hm1 : mono s s1) by apply Dp.
+  destruct o as [v|e|p|].
+  - (* element decoded: continue *)
+    assert (Hlt : idx s < idx s1) by (apply Dp with (v := v); reflexivity).
+    assert (Hi1 : idx s1 <= L) by (fields; lia).
+    destruct (Ha d kl (n - 1) s1 (v :: acc) Hi1) as [Ap Ag].
+    split.
+    + eapply post_chain; [exact Hm1|discriminate|exact Ap|lia].
+    + intros m G Hb Hdm. destruct (Dg m G Hb ltac:(lia)) as [G1 [G2 [G3 G4]]].
+      cbn [fst snd] in *.
+      eapply gpost_chain; [exact Hm1|apply (G2 v); reflexivity|exact G3|exact G4|apply Ap|apply Ag; auto; fields; lia].
+  - cbn [cast]. split.
+    + eapply post_weaken; [exact Dp|lia|discriminate].
+    + intros m G Hb Hdm. apply (Dg m G Hb). lia.
+  - cbn [cast]. split.
+    + eapply post_weaken; [exact Dp|lia|discriminate].
+    + intros m G Hb Hdm. apply (Dg m G Hb). lia.
+  - cbn [cast]. split.
+    + eapply post_weaken; [exact Dp|lia|discriminate].
+    + intros m G Hb Hdm. apply (Dg m G Hb). lia.
+Qed.
+
+
+Lemma pk_step a p1 p0 x t : a <= N.max p1 x -> p1 <= N.max p0 t -> x <= t -> a <= N.max p0 t.
+Proof. lia. Qed.
+Lemma pk_weak a p x t : a <= N.max p x -> x <= t -> a <= N.max p t.
+Proof. lia. Qed.
+Lemma dk_step a d1 d0 t : a <= N.max d1 t -> d1 <= N.max d0 t -> a <= N.max d0 t.
+Proof. lia. Qed.
+
+Lemma map_step_ok dk mk F : dec_ok dk F -> map_ok mk F -> map_ok (map_step b dk mk) (F + 1).
+Proof.
+  intros Hd Hmk d kl n s acc last Hi. unfold map_step.
+  destruct (n =? 0).
+  { split.
+    - apply post_leaf; try discriminate. fields; lia.
+    - intros m G Hb Hdm. unfold gpost; cbn [fst snd]. repeat split; try discriminate; fields; lia. }
+  cbv zeta. fold (llen last).
+  set (ll := llen last).
+  destruct (Hd (d + 1) (kl + ll) s Hi) as [Dp Dg].
+  destruct (dk (d + 1) (kl + ll) s) as [o1 s1] eqn:E1.
+  assert (Hm1 : mono s s1) by apply Dp.
+  destruct o1 as [k|e|p|].
+  2,3,4: (cbn [cast]; split;
+          [eapply post_weaken; [exact Dp|lia|discriminate]
+          |intros m G Hb Hdm; apply (Dg m G Hb); lia]).
+  assert (Hlt : idx s < idx s1) by (apply Dp with (v := k); reflexivity).
+  assert (Hi1 : idx s1 <= L) by (fields; lia).
+  destruct (slice_val b (idx s) (idx s1)) as [kb [Es Hkb]]; [lia|exact Hi1|]. rewrite Es.
+  destruct (key_order kb last) as [e|].
+  { split.
+    - apply post_leaf; try discriminate. exact Hm1.
+    - intros m G Hb Hdm. destruct (Dg m G Hb ltac:(lia)) as [G1 [G2 [G3 G4]]].
+      unfold gpost; cbn [fst snd] in *. repeat split; try discriminate; assumption. }
+  set (s2 := touch (lenN kb) (kl + ll) s1).
+  assert (H2 : idx s2 = idx s1 /\ bud s2 = bud s1 /\ cur s2 = cur s1 /\
+               peak s2 = N.max (peak s1) (cur s1 + lenN kb + (kl + ll)) /\ dmax s2 = dmax s1)
+    by (unfold s2, touch; cbn; auto).
+  destruct H2 as [I2 [B2 [C2 [P2 D2]]]].
+  assert (Hi2 : idx s2 <= L) by lia.
+  destruct (Hd (d + 1) (kl + lenN kb) s2 Hi2) as [Dp2 Dg2].
+  destruct (dk (d + 1) (kl + lenN kb) s2) as [o2 s3] eqn:E2.
+  assert (Hm2 : mono s2 s3) by apply Dp2.
+  assert (Hm03 : mono s s3) by (fields; lia).
+  destruct o2 as [v|e|p|].
+  - assert (Hlt2 : idx s2 < idx s3) by (apply Dp2 with (v := v); reflexivity).
+    assert (Hi3 : idx s3 <= L) by (fields; lia).
+    destruct (Hmk d kl (n - 1) s3 ((k, v) :: acc) (Some kb) Hi3) as [Mp Mg]. cbn [llen] in Mg.
+    split.
+    + eapply post_chain; [exact Hm03|discriminate|exact Mp|fields; lia].
+    + intros m G Hb Hdm.
+      destruct (Dg m G Hb ltac:(lia)) as [G1 [G2 [G3 G4]]].
+      assert (Hb2 : bud s2 <= L) by (fields; lia).
+      destruct (Dg2 m G Hb2 ltac:(lia)) as [K1 [K2 [K3 K4]]].
+      assert (Hb3 : bud s3 <= L) by (fields; lia).
+      destruct (Mg m G Hb3 Hdm) as [M1 [M2 [M3 M4]]].
+      assert (Mm : mono s3 (snd (mk d kl (n - 1) s3 ((k, v) :: acc) (Some kb)))) by apply Mp.
+      cbn [fst snd] in *.
+      specialize (G2 k eq_refl). specialize (K2 v eq_refl).
+      unfold gpost. cbn [fst snd].
+      set (sf := snd (mk d kl (n - 1) s3 ((k, v) :: acc) (Some kb))) in *.
+      split; [exact M1|]. split; [|split].
+      * intros w Ew. specialize (M2 w Ew).
+        clear - Hm1 Hm2 Mm I2 B2 C2 G2 K2 M2. fields; lia.
+      * unfold pcost in *.
+        eapply pk_step; [exact M3| |].
+        eapply pk_step; [exact K3| |].
+        eapply pk_step; [rewrite P2; apply N.le_refl| |].
+        eapply pk_weak; [exact G3|].
+        all: clear - Hm1 Hm2 Mm I2 B2 C2 G2 K2 Hkb; fields; lia.
+      * unfold dcost in *. eapply dk_step; [exact M4|]. eapply dk_step; [exact K4|]. rewrite D2. exact G4.
+  - cbn [cast]. split.
+    + apply post_leaf; try discriminate. exact Hm03.
+    + intros m G Hb Hdm.
+      destruct (Dg m G Hb ltac:(lia)) as [G1 [G2 [G3 G4]]].
+      assert (Hb2 : bud s2 <= L) by (fields; lia).
+      destruct (Dg2 m G Hb2 ltac:(lia)) as [K1 [K2 [K3 K4]]].
+      cbn [fst snd] in *. specialize (G2 k eq_refl).
+      unfold gpost; cbn [fst snd]. split; [discriminate|]. split; [discriminate|]. split.
+      * unfold pcost in *.
+        eapply pk_step; [exact K3| |].
+        eapply pk_step; [rewrite P2; apply N.le_refl| |].
+        eapply pk_weak; [exact G3|].
+        all: clear - Hm1 Hm2 I2 B2 C2 G2 Hkb; fields; lia.
+      * unfold dcost in *. eapply dk_step; [exact K4|]. rewrite D2. exact G4.
+  - cbn [cast]. split.
+    + destruct Dp2 as [_ [_ [Q3 _]]]. cbn [fst snd] in Q3.
+      unfold post; cbn [fst snd]. repeat split; try discriminate; try (fields; lia).
+      exact Q3.
+    + intros m G Hb Hdm. exfalso.
+      assert (Hb2 : bud s2 <= L) by (fields; lia).
+      destruct (Dg2 m G Hb2 ltac:(lia)) as [K1 _]. exact (K1 p eq_refl).
+  - cbn [cast]. split.
+    + destruct Dp2 as [_ [_ [_ Q4]]]. cbn [fst snd] in Q4.
+      unfold post; cbn [fst snd]. repeat split; try discriminate; try (fields; lia).
+      intros HP. apply Q4. fields; lia.
+    + intros m G Hb Hdm.
+      destruct (Dg m G Hb ltac:(lia)) as [G1 [G2 [G3 G4]]].
+      assert (Hb2 : bud s2 <= L) by (fields; lia).
+      destruct (Dg2 m G Hb2 ltac:(lia)) as [K1 [K2 [K3 K4]]].
+      cbn [fst snd] in *. specialize (G2 k eq_refl).
+      unfold gpost; cbn [fst snd]. split; [discriminate|]. split; [discriminate|]. split.
+      * unfold pcost in *.
+        eapply pk_step; [exact K3| |].
+        eapply pk_step; [rewrite P2; apply N.le_refl| |].
+        eapply pk_weak; [exact G3|].
+        all: clear - Hm1 Hm2 I2 B2 C2 G2 Hkb; fields; lia.
+      * unfold dcost in *. eapply dk_step; [exact K4|]. rewrite D2. exact G4.
+Qed.
+
+
+Lemma base_ok :
+  dec_ok (fun _ _ s => (Fuel, s)) 0 /\ arr_ok (fun _ _ _ s _ => (Fuel, s)) 0 /\ map_ok (fun _ _ _ s _ _ => (Fuel, s)) 0.
+Proof.
+  repeat split; cbn [fst snd]; try discriminate; try (fields; lia).
+Qed.
+
+Lemma dec_all_ok f :
+  dec_ok (dec c b f) (N.of_nat f) /\ arr_ok (arr_items c b f) (N.of_nat f) /\ map_ok (map_items c b f) (N.of_nat f).
+Proof.
+  induction f as [|f [IHd [IHa IHm]]].
+  - exact base_ok.
+  - replace (N.of_nat (S f)) with (N.of_nat f + 1) by lia.
+    split; [|split].
+    + exact (dec_step_ok _ _ _ IHa IHm).
+    + exact (arr_step_ok _ _ _ IHd IHa).
+    + exact (map_step_ok _ _ _ IHd IHm).
+Qed.
+
+Lemma dec_pa_state : snd (dec_pa c b) = snd (dec c b (fuel_for b) 0 0 (st0 b)).
+Proof.
+  unfold dec_pa. destruct (dec c b (fuel_for b) 0 0 (st0 b)) as [o s]. destruct o; cbn; auto.
+  destruct (idx s =? L); reflexivity.
+Qed.
+
+Lemma dec_pa_result :
+  result (dec_pa c b) = fst (dec c b (fuel_for b) 0 0 (st0 b)) \/
+  (exists v, fst (dec c b (fuel_for b) 0 0 (st0 b)) = Val v) /\ result (dec_pa c b) = Err ETrailing.
+Proof.
+  unfold dec_pa, result. destruct (dec c b (fuel_for b) 0 0 (st0 b)) as [o s]. destruct o; cbn; auto.
+  destruct (idx s =? L); cbn; eauto.
+Qed.
+
+Lemma top_post : post true (2 * (L - 0) + 1 <= N.of_nat (fuel_for b)) (st0 b) (dec c b (fuel_for b) 0 0 (st0 b)).
+Proof. destruct (dec_all_ok (fuel_for b)) as [Hd _]. apply (Hd 0 0 (st0 b)). cbn. lia. Qed.
+
+Lemma fuel_enough : 2 * (L - 0) + 1 <= N.of_nat (fuel_for b).
+Proof. unfold fuel_for, lenN. lia. Qed.
+
+Theorem pa_terminates : result (dec_pa c b) <> Fuel.
+Proof.
+  destruct top_post as [_ [_ [_ Hf]]]. specialize (Hf fuel_enough).
+  destruct dec_pa_result as [E|[_ E]]; rewrite E; [exact Hf|discriminate].
+Qed.
+
+Theorem pa_panic_only_capacity p : result (dec_pa c b) = Panic p -> p = PCapacity.
+Proof.
+  destruct top_post as [_ [_ [Hp _]]].
+  destruct dec_pa_result as [E|[_ E]]; rewrite E; [apply Hp|discriminate].
+Qed.
+
+Theorem pa_index_in_range : idx (snd (dec_pa c b)) <= L.
+Proof. rewrite dec_pa_state. destruct top_post as [Hm _]. apply Hm. Qed.
+
+Section Guarded.
+Variable m : N.
+Hypothesis HG : gd m.
+
+Lemma top_gpost : gpost m 0 (st0 b) (dec c b (fuel_for b) 0 0 (st0 b)).
+Proof.
+  destruct (dec_all_ok (fuel_for b)) as [Hd _].
+  destruct (Hd 0 0 (st0 b)) as [_ Hg]; [cbn; lia|]. apply Hg; [exact HG|cbn; lia|lia].
+Qed.
+
+Theorem pa_no_panic p : result (dec_pa c b) <> Panic p.
+Proof.
+  destruct top_gpost as [Hp _].
+  destruct dec_pa_result as [E|[_ E]]; rewrite E; [apply Hp|discriminate].
+Qed.
+
+Theorem pa_alloc_linear : alloc_peak (dec_pa c b) <= 66 * L.
+Proof.
+  unfold alloc_peak. rewrite dec_pa_state.
+  destruct top_gpost as [_ [_ [Hpk _]]]. destruct top_post as [Hm _].
+  unfold pcost in Hpk. unfold mono in Hm. cbn [st0 idx bud cur peak dmax] in *. lia.
+Qed.
+
+Theorem pa_depth_bounded : depth_max (dec_pa c b) <= m + 1.
+Proof.
+  unfold depth_max. rewrite dec_pa_state.
+  destruct top_gpost as [_ [_ [_ Hd]]]. unfold dcost in Hd. cbn [st0 dmax] in Hd. lia.
+Qed.
+End Guarded.
+
+End Main.
+
+(* ------------------------------------------------------------------ packaged for Props/C13.v *)
+
+Lemma gd_of c (b : bytes) m : guard c = true -> depth_limit c = Some m -> size_entry * lenN b <= isize_max c -> gd c b m.
+Proof. intros; constructor; assumption. Qed.
+
+Lemma guarded_limit c : is_guarded c = true -> guard c = true /\ exists m, depth_limit c = Some m.
+Proof.
+  unfold is_guarded. destruct (guard c); [|discriminate]. destruct (depth_limit c) as [m|]; [|discriminate].
+  intros _. split; [reflexivity|]. exists m. reflexivity.
+Qed.
+
+Lemma fits_of_small c (b : bytes) : isize_max c <= usize_max c -> size_entry * lenN b <= isize_max c -> lenN b <= usize_max c.
+Proof. unfold size_entry. lia. Qed.
+
+Theorem guarded_no_panic c (b : bytes) : is_guarded c = true -> isize_max c <= usize_max c ->
+  size_entry * lenN b <= isize_max c -> forall p, result (dec_pa c b) <> Panic p.
+Proof.
+  intros G W S p. destruct (guarded_limit c G) as [Gg [m Gm]].
+  exact (pa_no_panic c b (fits_of_small c b W S) m (gd_of c b m Gg Gm S) p).
+Qed.
+
+Theorem guarded_alloc_linear c (b : bytes) : is_guarded c = true -> isize_max c <= usize_max c ->
+  size_entry * lenN b <= isize_max c -> alloc_peak (dec_pa c b) <= 66 * lenN b.
+Proof.
+  intros G W S. destruct (guarded_limit c G) as [Gg [m Gm]].
+  exact (pa_alloc_linear c b (fits_of_small c b W S) m (gd_of c b m Gg Gm S)).
+Qed.
+
+Theorem guarded_depth_bounded c (b : bytes) m : guard c = true -> depth_limit c = Some m -> isize_max c <= usize_max c ->
+  size_entry * lenN b <= isize_max c -> depth_max (dec_pa c b) <= m + 1.
+Proof.
+  intros Gg Gm W S. exact (pa_depth_bounded c b (fits_of_small c b W S) m (gd_of c b m Gg Gm S)).
+Qed.
+
 (* ------------------------------------------------------------------ refutations on the unguarded (current) decoder *)
 
 Definition w_capacity : bytes := [155; 255; 255; 255; 255; 255; 255; 255; 255].       (* 9b ff*8 *)
 Definition w_huge : bytes := [187; 0; 0; 0; 255; 255; 255; 255; 255].                 (* bb 00 00 00 ff*5 *)
+Definition w_small_huge : bytes := [154; 0; 1; 0; 0].                                  (* 9a 00 01 00 00 *)
 
 Lemma unguarded_capacity_panic : result (dec_pa cfg_unguarded w_capacity) = Panic PCapacity.
 Proof. vm_compute. reflexivity. Qed.
@@ -16,5 +653,13 @@ Lemma unguarded_huge_alloc :
   lenN w_huge = 9 /\ alloc_peak (dec_pa cfg_unguarded w_huge) = 64 * (2 ^ 40 - 1).
 Proof. split; vm_compute; reflexivity. Qed.
 
+Lemma unguarded_small_huge_alloc :
+  lenN w_small_huge = 5 /\ result (dec_pa cfg_unguarded w_small_huge) = Err EIncomplete /\
+  alloc_peak (dec_pa cfg_unguarded w_small_huge) = 2 ^ 21.
+Proof. repeat split; vm_compute; reflexivity. Qed.
+
 Lemma unguarded_deep : lenN (nest 2000) = 2001 /\ depth_max (dec_pa cfg_unguarded (nest 2000)) = 2000.
 Proof. split; vm_compute; reflexivity. Qed.
+
+Lemma repo_cfg_cases : cfg_repo = cfg_unguarded \/ cfg_repo = cfg_guarded.
+Proof. first [left; reflexivity | right; reflexivity]. Qed.
